@@ -2,7 +2,7 @@
 // every string of at most L characters over {LF, CR, a, é (2 bytes), € (3 bytes), 😀 (4 bytes)} and every
 // character-boundary offset.  The contract checked is the property itself:
 //   pest_typed::Position::new(s,p).line_col() == pest::Position::new(s,p).line_col()   (same for line_of).
-use pest_typed::Position;
+use pest_typed::{Input, Position};
 
 const ALPHA: [&str; 6] = ["\n", "\r", "a", "é", "€", "😀"];
 fn bound() -> usize { std::env::var("VERIF_NB_L").ok().and_then(|x| x.parse().ok()).unwrap_or(6) }
@@ -22,6 +22,24 @@ fn rec(s: &mut String, left: usize, cases: &mut u64, fail: &mut Option<String>) 
             Err(_) => { *fail = Some(format!("s={:?},pos={} detail=panic (pest returns {:?})", s, p, b)); return; }
         }
     }
+    // positions ADVANCED through the public cursor API (Input::skip / Input::next) are the positions n characters further
+    if s.chars().count() <= 4 {
+        for p in 0..=s.len() {
+            if !s.is_char_boundary(p) { continue; }
+            for n in 0..4usize {
+                *cases += 1;
+                let mut ours = Position::new(s, p).unwrap();
+                let ok = Input::skip(&mut ours, n);
+                let want = s[p..].char_indices().nth(n).map(|(i, _)| p + i).or(if s[p..].chars().count() == n { Some(s.len()) } else { None });
+                let got = if ok { Some(Input::byte_offset(&ours)) } else { None };
+                if got != want { *fail = Some(format!("s={:?},pos={},skip={} detail=Input::skip moved to {:?}, {} characters further is {:?}", s, p, n, got, n, want)); return; }
+                if let Some(w) = want { if ours.line_col() != pest::Position::new(s, w).unwrap().line_col() { *fail = Some(format!("s={:?},pos={},skip={} detail=line_col after skip differs from pest", s, p, n)); return; } }
+            }
+            let mut ours = Position::new(s, p).unwrap();
+            let c = Input::next(&mut ours);
+            if c != s[p..].chars().next() || Input::byte_offset(&ours) != p + c.map_or(0, |c| c.len_utf8()) { *fail = Some(format!("s={:?},pos={} detail=Input::next returned {:?} and moved to {}", s, p, c, Input::byte_offset(&ours))); return; }
+        }
+    }
     if left == 0 { return; }
     for a in ALPHA.iter() {
         let n = s.len();
@@ -39,6 +57,6 @@ fn nb_linecol() {
     rec(&mut String::new(), l, &mut cases, &mut fail);
     match fail {
         Some(f) => println!("NB-RESULT name=nb_linecol status=fail cases={} key={}", cases, f),
-        None => println!("NB-RESULT name=nb_linecol status=ok cases={} key=- detail=all strings of <= {} chars over {{LF,CR,a,é,€,😀}} x all boundary offsets: line_col and line_of equal pest's", cases, l),
+        None => println!("NB-RESULT name=nb_linecol status=ok cases={} key=- detail=all strings of <= {} chars over {{LF,CR,a,é,€,😀}} x all boundary offsets: line_col and line_of equal pest's; positions advanced by Input::skip(n<4) / Input::next from every offset (strings<=4 chars)", cases, l),
     }
 }
